@@ -471,6 +471,7 @@ def run(ctx: C.Ctx):
         texts_ = [str(a) for sp in pool for a in sp[1:2]]
         pm = rng.choice([[], [], [["led", "13"]], [[t] for t in texts_], [[sp[0]] + [str(a) for a in sp[1:2]] for sp in pool], [["pin_mode", t] for t in texts_],
                          [["bz", "8", "OUTPUT"], ["mot", "4", "in1"]]])
+        pm = [list(k) for k in dict.fromkeys(tuple(k) for k in pm)]
         us = rng.choice([[], [], [["us", "2", "OUTPUT"]]])
         es_cases.append((rng.random() < 0.7, rng.choice(["", "  ", "    "]), pm, us, S.gen_sn(rng, 0, rng.choice([1, 2, 3]), pool)))
     es_impl = C.run_impl("c07_impl.py", {"cases": [["emitstate", b_, ind, pm, us, tr] for b_, ind, pm, us, tr in es_cases]}, timeout=3000)
